@@ -18,10 +18,14 @@ func (q queryServer) ListAllowedBidder(ctx context.Context, req *types.QueryAllA
 		return nil, status.Error(codes.InvalidArgument, "invalid request")
 	}
 
-	allowedBidders, pageRes, err := query.CollectionPaginate(
+	// An auction id left at its zero value does not filter.
+	allowedBidders, pageRes, err := query.CollectionFilteredPaginate(
 		ctx,
 		q.k.AllowedBidder,
 		req.Pagination,
+		func(_ collections.Pair[uint64, sdk.AccAddress], value types.AllowedBidder) (bool, error) {
+			return req.AuctionId == 0 || value.AuctionId == req.AuctionId, nil
+		},
 		func(_ collections.Pair[uint64, sdk.AccAddress], value types.AllowedBidder) (types.AllowedBidder, error) {
 			return value, nil
 		},
